@@ -22,6 +22,9 @@ pub struct ActorSpec {
     /// microseconds spent inside pre_stop (widens the window between the end of the loop and the close)
     #[serde(default)]
     pub stop_delay: u32,
+    /// the Drop of an incarnation whose pre_start failed waits (bounded) until the spawner reacted to the failure
+    #[serde(default)]
+    pub drop_gate: bool,
 }
 
 #[derive(Serialize, Deserialize, Clone, Debug)]
@@ -36,6 +39,16 @@ pub enum Op {
     GLeave { tok: u32 },
     GSend { k: String, d: u32 },
     GLen,
+    /// spawn `slot`; if its start-up fails, immediately spawn `slot2` (same name) while the failed
+    /// incarnation is still being torn down
+    SpawnRespawn { slot: usize, slot2: usize },
+    /// send a cast whose handler waits for the actor's gate, and wait until the handler is entered
+    SendGate { slot: usize },
+    OpenGate { slot: usize },
+    /// wait (bounded) until every cast accepted so far was handled
+    WaitHandled,
+    /// stop the actor and await its exit
+    StopWait { slot: usize },
     Pause { us: u32 },
 }
 
@@ -88,6 +101,7 @@ fn plain(cap: usize) -> ActorSpec {
         sup: false,
         pre_delay: 0,
         stop_delay: 0,
+        drop_gate: false,
     }
 }
 
@@ -293,6 +307,103 @@ pub fn generate(seed: u64, class: u32) -> Program {
             }
         }
     }
+    // registry programs: sometimes a failing named spawn is followed at once by a respawn under the same name
+    if class == 1 {
+        let failing: Vec<usize> = (0..actors.len()).filter(|&i| actors[i].name.is_some() && !actors[i].pre_ok).collect();
+        for f in failing {
+            let nm = actors[f].name.clone();
+            let partner = (0..actors.len()).find(|&j| j != f && actors[j].name == nm && actors[j].pre_ok);
+            if let Some(j) = partner {
+                let mut found = None;
+                for t in 0..threads.len() {
+                    if let Some(pos) = threads[t].iter().position(|o| matches!(o, Op::Spawn { slot } if *slot == f)) {
+                        found = Some((t, pos));
+                    }
+                }
+                let jpos = threads.iter().enumerate().find_map(|(t, s)| {
+                    s.iter().position(|o| matches!(o, Op::Spawn { slot } if *slot == j)).map(|p| (t, p))
+                });
+                if let (Some((t, pos)), Some((tj, pj))) = (found, jpos) {
+                    actors[f].drop_gate = true;
+                    threads[tj].remove(pj);
+                    let pos = if tj == t && pj < pos { pos - 1 } else { pos };
+                    threads[t][pos] = Op::SpawnRespawn { slot: f, slot2: j };
+                    break;
+                }
+            }
+        }
+    }
     let class = ["mailbox", "registry", "group", "mixed"][class.min(3) as usize].to_string();
     Program { class, seed, workers, actors, base, threads, respawns }
+}
+
+/// Directed programs (small exhaustive enumerations) for behaviours random programs rarely reach.
+///
+/// kind "respawn", variant 0..: a named spawn whose pre_start fails, followed at once by a spawn of the same
+/// name while the failed incarnation is still being torn down (its Drop is gated).
+/// kind "layout", variant 0..18: process group with members A (mailbox full), B (closed, not yet pruned) and
+/// C (live, room), every join order (6) x every cursor position (3); the group send must reach C.
+pub fn directed(kind: &str, variant: u64) -> Program {
+    let mut r = Rng(variant ^ 0xD1EC_7ED0);
+    let mut actors = Vec::new();
+    let mut threads: Vec<Vec<Op>> = Vec::new();
+    let mut base = Vec::new();
+    let workers = (variant % 3 + 1) as usize;
+    match kind {
+        "respawn" => {
+            let mut a = plain(1);
+            a.name = Some("x".into());
+            a.pre_ok = false;
+            a.drop_gate = true;
+            a.pre_delay = *r.pick(&[0, 100, 500]);
+            actors.push(a);
+            let mut b = plain(2);
+            b.name = Some("x".into());
+            actors.push(b);
+            let mut c = plain(3);
+            c.name = Some("x".into());
+            actors.push(c);
+            let mut t0 = vec![Op::SpawnRespawn { slot: 0, slot2: 1 }, Op::Lookup { name: "x".into(), send: Some("cast".into()) }];
+            if variant % 2 == 1 {
+                // the replacement is stopped and the name reused once more
+                t0.push(Op::StopWait { slot: 1 });
+                t0.push(Op::Spawn { slot: 2 });
+            }
+            threads.push(t0);
+            if variant % 3 != 0 {
+                let mut t1 = Vec::new();
+                for _ in 0..r.range(2, 5) {
+                    t1.push(Op::Lookup { name: "x".into(), send: None });
+                    t1.push(Op::Pause { us: *r.pick(&[10, 100, 300]) });
+                }
+                threads.push(t1);
+            }
+        }
+        _ => {
+            let perms = [[0usize, 1, 2], [0, 2, 1], [1, 0, 2], [1, 2, 0], [2, 0, 1], [2, 1, 0]];
+            let perm = perms[(variant % 6) as usize];
+            let priming = (variant / 6) % 3;
+            for i in 0..3 {
+                actors.push(plain(1));
+                base.push(i);
+            }
+            let mut t0 = Vec::new();
+            for (tok, slot) in perm.iter().enumerate() {
+                t0.push(Op::GJoin { slot: *slot, tok: tok as u32 });
+            }
+            for _ in 0..priming {
+                t0.push(Op::GSend { k: "cast".into(), d: 0 });
+                t0.push(Op::WaitHandled);
+            }
+            t0.push(Op::SendGate { slot: 0 }); // A is busy ...
+            t0.push(Op::Send { slot: 0, k: "cast".into(), d: 0 }); // ... and its mailbox (capacity 1) full
+            t0.push(Op::StopWait { slot: 1 }); // B is closed but still a member
+            t0.push(Op::GLen);
+            t0.push(Op::GSend { k: "cast".into(), d: 0 }); // must reach C, the only live member with room
+            t0.push(Op::GLen);
+            t0.push(Op::OpenGate { slot: 0 });
+            threads.push(t0);
+        }
+    }
+    Program { class: kind.to_string(), seed: variant, workers, actors, base, threads, respawns: 0 }
 }
